@@ -181,7 +181,7 @@ type GenOpts struct {
 }
 
 var nameStems = []string{"f%d.dat", "data%d.bin", "sub/f%d", "sub/deep/er/f%d.x", "with space %d.txt", "UPPER%d.DAT", "d%d/file", "a-%d_b.c.d"}
-var par1Stems = []string{"f%d.dat", "data%d.bin", "with space %d.txt", "héllo%d.txt", "日本%d", "\U0001F600%d.bin", "UPPER%d.DAT"}
+var par1Stems = []string{"f%d.dat", "data%d.bin", "with space %d.txt", "héllo%d.txt", "日本%d", "\U0001F600%d.bin", "UPPER%d.DAT", "clip%d-\U0001F600", "%d\U00010348\U0001F4BE", "x%dé"}
 var baseNames = []string{"set", "my set", "archive.v1", "x", "Set-2_b"}
 
 // GenWorld draws a file set and puts it on a fresh simulated disk.
@@ -297,6 +297,16 @@ func GenWorld(r *Run, o GenOpts) *World {
 				data = []byte{1}
 			}
 			r.Probe("duplicate-file-content")
+		} else if !o.RandomOnly && i > 0 && len(w.Files[i-1].Data) > 16384 && t.Bool(1, 3, "near-dup-16k") {
+			// same length and same first 16 KiB as the previous file,
+			// different afterwards: the two files share their 16k hash
+			data = append([]byte(nil), w.Files[i-1].Data...)
+			g := prng{s: t.Draw64(0, "nseed")}
+			for k := 0; k < 1+int(g.next()%5); k++ {
+				o := 16384 + int(g.next()%uint64(len(data)-16384))
+				data[o] ^= byte(1 + g.next()%255)
+			}
+			r.Probe("files-sharing-16k-prefix")
 		} else {
 			seed := t.Draw64(0, "cseed")
 			ssz := w.S
@@ -469,6 +479,10 @@ func (w *World) DamageData(r *Run, enabled []string) string {
 	pos := func(label string, n int) int {
 		if n <= 0 {
 			return 0
+		}
+		// the file hashes change regime at 16 KiB: aim there sometimes
+		if n > 16384 && t.Bool(1, 5, label+"-16k") {
+			return 16383 + t.Draw(3, label+"-16k-d")
 		}
 		// bias to slice boundaries and ends
 		switch t.Pick([]int{3, 1, 1, 2}, label+"-class") {
